@@ -147,6 +147,13 @@ func vfC20Scenarios(thorough bool) []*vfGWScenario {
 		Cfg: vfGWCfg{Router: "gossip", Peers: peers, Topics: []string{"t"}, Params: "d2", Scoring: true, ScoreTopics: true, SeenTTL: 2, Workers: 2, ValThrottle: 1, Prefix: prefix, Extra: map[string]string{"seqno_validator": "1"},
 			Validators: []vfValCfg{{Name: "V", Topic: "t", Gated: true, Verdict: "A"}}},
 		Alphabet: []string{"pub:a:s1", "pub:b:s2", "pub:a:s3", "pub:b:s1", "pub:b:s0", "vrel:V:s1:A", "vrel:V:s2:A", "vrel:V:s3:A", "adv:63000"}, Msgs: msgs, Depth: d})
+	// a slow nonce store: the sequence-number validator's verdict arrives after the topic validator's (the store's reads
+	// park until released), for replays after the seen window has expired and for fresh messages
+	out = append(out, &vfGWScenario{Name: "slow-store",
+		Cfg: vfGWCfg{Router: "gossip", Peers: peers, Topics: []string{"t"}, Params: "d2", Scoring: true, ScoreTopics: true, SeenTTL: 2, Workers: 2, Extra: map[string]string{"seqno_validator": "1"},
+			Prefix:     append(append([]string{}, prefix...), "pub:a:s1", "vrel:V:s1:A", "adv:63000"),
+			Validators: []vfValCfg{{Name: "V", Topic: "t", Gated: true, Verdict: "A"}}},
+		Alphabet: []string{"mhold", "mrel", "pub:b:s1", "pub:b:s0", "pub:a:s2", "vrel:V:s1:A", "vrel:V:s0:A", "vrel:V:s2:A"}, Msgs: msgs, Depth: d})
 	// the validator registered inline, in front of other validators (inline and asynchronous) that accept: its Ignore
 	// must survive whatever the later ones say
 	for _, inlineTopic := range []bool{true, false} {
